@@ -472,6 +472,11 @@ class HTTPChannel(wasyncore.dispatcher):
             else:
                 task.close_on_finish = True
 
+        # the request has been worked on until now: note that before it is
+        # taken off self.requests, or a maintenance pass in between would see
+        # an idle channel that has been inactive since the request arrived
+        self.last_activity = time.time()
+
         if task.close_on_finish:
             with self.requests_lock:
                 self.close_when_flushed = True
